@@ -16,9 +16,11 @@ else
 SAN :=
 OPT := -O2 -g
 endif
-CXXFLAGS := -std=c++17 $(OPT) $(SAN) -Wall -Wextra -Wno-unused-parameter -Isim
+# the simulator itself is not instrumented (speed); the sanitizer runtime still intercepts its malloc/memcpy
+CXXFLAGS := -std=c++17 -O2 -g -fno-omit-frame-pointer -Wall -Wextra -Wno-unused-parameter -Wno-array-compare -Isim
 CFLAGS_CORE := -std=gnu11 $(OPT) $(SAN) -Wall -Wextra -Wno-unused-parameter -I$(VERIF_REPO)/lltdResponder
-CFLAGS_GLUE := $(CFLAGS_CORE) -Isim -I$(VERIF_REPO)
+CLASSIFIER_LEN := $(shell grep -q 'size_t frame_len' $(VERIF_REPO)/lltdResponder/lltdAutomata.h || echo -DGLUE_CLASSIFIER_NO_LEN)
+CFLAGS_GLUE := $(CFLAGS_CORE) -Isim -I$(VERIF_REPO) $(CLASSIFIER_LEN)
 
 SIMOBJS := $(SIMDIR)/world.o $(SIMDIR)/props.o $(SIMDIR)/gen.o $(SIMDIR)/main.o
 CORESRC := lltdBlock lltdAutomata lltdTlvOps lltdWire
